@@ -14,6 +14,7 @@
 (*   [t |-> "call", f, args, kw]         f(args.., kw..)                     *)
 (*   [t |-> "idx",  a, i]                a[i]                              *)
 (*   [t |-> "attr", a, name]             a.attr(name)                      *)
+(*   [t |-> "attra", a, name]            a.a.<name>  (the attribute spelling) *)
 (*                                                                         *)
 (* M-layer: Plain(prog, env) - the same computation on plain numbers.      *)
 (* A-layer: Build(prog) - pymbolic.primitives' operator methods with their *)
@@ -30,6 +31,7 @@ OrdP(op, l, r)     == [t |-> "ord", op |-> op, l |-> l, r |-> r]
 CallP(f, args, kw) == [t |-> "call", f |-> f, args |-> args, kw |-> kw]
 IdxP(a, i)         == [t |-> "idx", a |-> a, i |-> i]
 AttrP(a, name)     == [t |-> "attr", a |-> a, name |-> name]
+AttraP(a, name)    == [t |-> "attra", a |-> a, name |-> name]
 
 PKids(p) ==
     CASE p.t = "leaf" -> << >>
@@ -37,7 +39,7 @@ PKids(p) ==
       [] p.t = "un" -> << p.a >>
       [] p.t = "call" -> << p.f >> \o p.args \o [i \in 1..Len(p.kw) |-> p.kw[i].e]
       [] p.t = "idx" -> << p.a, p.i >>
-      [] p.t = "attr" -> << p.a >>
+      [] p.t \in {"attr", "attra"} -> << p.a >>
 
 RECURSIVE PLeaves(_)
 PLeaves(p) == IF p.t = "leaf" THEN {p.e}
@@ -67,7 +69,7 @@ Plain(p, env) ==
                       IF fv.k = "fn" THEN FnApply(fv.name, vs, ks) ELSE Err("TypeError"))
       [] p.t = "idx" -> LET a == Plain(p.a, env) i == Plain(p.i, env) IN
                         Strict(<< a, i >>, Index(a, i))
-      [] p.t = "attr" -> LET a == Plain(p.a, env) IN
+      [] p.t \in {"attr", "attra"} -> LET a == Plain(p.a, env) IN
                          IF IsUnrep(a) \/ IsErr(a) THEN a
                          ELSE IF a.k = "obj" THEN ObjAttr(a.name, p.name)
                          ELSE Err("AttributeError")
@@ -288,7 +290,7 @@ Build(p) ==
                 IF IsC(a) THEN Raise("TypeError")
                 ELSE IF i.t = "Tup" /\ Len(i.c) = 0 THEN a     \* deprecated special case
                 ELSE B("Sub", a, i))
-      [] p.t = "attr" -> LET a == Build(p.a) IN
+      [] p.t \in {"attr", "attra"} -> LET a == Build(p.a) IN
             IF IsRaise(a) THEN a ELSE IF IsC(a) THEN Raise("AttributeError")
             ELSE Look(a, p.name)
 
